@@ -26,6 +26,10 @@ pub fn dispatch(kind: &str, case: &Value) -> Result<Option<String>, String> {
         "gen_script" => gen_script(case),
         "c09_foreign" => c09_foreign(case),
         "dealer_draws" => dealer_draws(case),
+        "dealer_model" => dealer_model(case),
+        "server_history" => server_history(case),
+        "adss_mixed" => adss_mixed(case),
+        "ggm_sweep" => ggm_sweep(case),
         _ => Err(format!("unknown case kind {:?}", kind)),
     }
 }
@@ -681,13 +685,14 @@ pub fn adss_coeffs(case: &Value) -> Result<Option<String>, String> {
 
 
 /// random source that replays a script of u64 words (then counts up), counting draws
-pub struct ScriptRng { pub words: Vec<u64>, pub pos: usize, pub draws: u64 }
+pub struct ScriptRng { pub words: Vec<u64>, pub pos: usize, pub draws: u64, pub limit: u64 }
 impl rand_core::RngCore for ScriptRng {
     fn next_u32(&mut self) -> u32 { self.next_u64() as u32 }
     fn next_u64(&mut self) -> u64 {
         let v = if self.pos < self.words.len() { self.words[self.pos] } else { 1 + self.pos as u64 };
         self.pos += 1;
         self.draws += 1;
+        if self.limit != 0 && self.draws > self.limit { panic!("draw budget reached"); }
         v
     }
     fn fill_bytes(&mut self, dest: &mut [u8]) { rand_core::impls::fill_bytes_via_next(self, dest) }
@@ -702,9 +707,9 @@ pub fn gen_script(case: &Value) -> Result<Option<String>, String> {
     let r = catch(move || -> Result<Option<String>, String> {
         let mut secret = vec![0u8; 24];
         secret[0] = 7;
-        let mut coin = ScriptRng { words: vec![], pos: 100, draws: 0 };
+        let mut coin = ScriptRng { words: vec![], pos: 100, draws: 0, limit: 0 };
         let ev = star_sharks::Sharks(t).dealer_rng(&secret, &mut coin).map_err(|e| e.to_string())?;
-        let mut rng = ScriptRng { words, pos: 0, draws: 0 };
+        let mut rng = ScriptRng { words, pos: 0, draws: 0, limit: 0 };
         let sh = ev.gen(&mut rng);
         if bool::from(sh.x.is_zero()) {
             return Ok(Some(format!("Evaluator::gen handed out the point 0 (the value is the secret itself) after {} source words", rng.draws)));
@@ -722,15 +727,35 @@ pub fn dealer_draws(case: &Value) -> Result<Option<String>, String> {
     let r = catch(move || -> Result<Option<String>, String> {
         let mut secret = vec![0u8; 24 * nel];
         secret[0] = 7;
-        let mut coin = ScriptRng { words: vec![], pos: 100, draws: 0 };
-        let ev = star_sharks::Sharks(t).dealer_rng(&secret, &mut coin).map_err(|e| e.to_string())?;
         let want = 3u64 * (t.max(1) as u64 - 1) * nel as u64;
+        // huge thresholds: stop once 3 million words were drawn (the code is drawing as it
+        // should; running on would only take minutes and gigabytes)
+        if t > 50_000_000 {
+            // Vec::with_capacity(t) alone is > 1 GB here; not replayed natively
+            return Ok(None);
+        }
+        if want > 3_000_000 {
+            let r = catch(move || {
+                let mut secret = vec![0u8; 24 * nel];
+                secret[0] = 7;
+                let mut coin = ScriptRng { words: vec![], pos: 100, draws: 0, limit: 3_000_000 };
+                let _ = star_sharks::Sharks(t).dealer_rng(&secret, &mut coin);
+                coin.draws
+            });
+            return match r {
+                Err(m) if m.contains("draw budget") => Ok(None),
+                Err(m) => Ok(Some(format!("dealing with threshold {} panicked: {}", t, m))),
+                Ok(d) => Ok(Some(format!("dealing with threshold {} drew {} source words, a polynomial of degree t-1 per element needs at least {}", t, d, want))),
+            };
+        }
+        let mut coin = ScriptRng { words: vec![], pos: 100, draws: 0, limit: 0 };
+        let ev = star_sharks::Sharks(t).dealer_rng(&secret, &mut coin).map_err(|e| e.to_string())?;
         if coin.draws < want {
             return Ok(Some(format!("dealing with threshold {} drew {} source words, a polynomial of degree t-1 per element needs at least {}", t, coin.draws, want)));
         }
         // two shares of a threshold >= 2 sharing must not both carry the secret itself
         if t >= 2 {
-            let mut g = ScriptRng { words: vec![], pos: 1000, draws: 0 };
+            let mut g = ScriptRng { words: vec![], pos: 1000, draws: 0, limit: 0 };
             let a = ev.gen(&mut g);
             let b = ev.gen(&mut g);
             if a.y == b.y { return Ok(Some(format!("threshold {}: two shares at different points carry the same value (constant polynomial)", t))); }
@@ -924,4 +949,264 @@ pub fn c09_foreign(case: &Value) -> Result<Option<String>, String> {
         }
     }
     Ok(None)
+}
+
+
+/// C06: native realisation of the dealing harnesses: deal a secret of `elements` field elements
+/// under threshold t with a scripted source, hand out t+2 shares, and check that every window
+/// of t consecutive shares recovers exactly the secret, t-1 shares are refused, no share point
+/// is 0, and (t >= 2) the first share does not carry the secret itself.
+pub fn dealer_model(case: &Value) -> Result<Option<String>, String> {
+    let t = u32_of(case, "t").max(1);
+    let nel = case["elements"].as_u64().unwrap_or(1) as usize;
+    let tail = case["tail"].as_u64().unwrap_or(0) as usize;
+    let r = catch(move || -> Result<Option<String>, String> {
+        let mut secret = vec![0u8; 24 * nel + tail];
+        for e in 0..nel { secret[24 * e] = 7 + e as u8; secret[24 * e + 9] = 0x5a; }
+        for i in 0..tail { secret[24 * nel + i] = 0xee; }
+        let mut coin = ScriptRng { words: vec![], pos: 100, draws: 0, limit: 0 };
+        let ev = star_sharks::Sharks(t).dealer_rng(&secret, &mut coin).map_err(|e| e.to_string())?;
+        let mut g = ScriptRng { words: vec![], pos: 5000, draws: 0, limit: 0 };
+        let shares: Vec<star_sharks::Share> = (0..t as usize + 2).map(|_| ev.gen(&mut g)).collect();
+        for s in &shares {
+            if bool::from(s.x.is_zero()) { return Ok(Some("a share point is 0".into())); }
+            if s.y.len() != nel { return Ok(Some(format!("a share carries {} values for a secret of {} elements", s.y.len(), nel))); }
+        }
+        let want = &secret[..24 * nel];
+        for w in 0..3usize {
+            let sel: Vec<star_sharks::Share> = shares[w..w + t as usize].to_vec();
+            match star_sharks::Sharks(t).recover(&sel) {
+                Ok(got) => if got != want { return Ok(Some(format!("shares {}..{} of a threshold-{} sharing recover {:02x?}, dealt {:02x?}", w, w + t as usize, t, &got[..got.len().min(8)], &want[..8.min(want.len())]))); },
+                Err(e) => if nel > 0 { return Ok(Some(format!("{} shares of a threshold-{} sharing are refused: {}", t, t, e))); },
+            }
+        }
+        if t >= 2 {
+            let few: Vec<star_sharks::Share> = shares[..t as usize - 1].to_vec();
+            if star_sharks::Sharks(t).recover(&few).is_ok() { return Ok(Some("t-1 shares recover".into())); }
+            let first: Vec<u8> = shares[0].y.iter().flat_map(|f| { use ff::PrimeField; f.to_repr().as_ref().to_vec() }).collect();
+            if nel > 0 && first == want { return Ok(Some("a single share of a threshold >= 2 sharing carries the secret itself".into())); }
+        }
+        Ok(None)
+    });
+    match r { Err(p) => Ok(Some(format!("panicked: {}", p))), Ok(x) => x }
+}
+
+
+// ---------------------------------------------------------------------------
+// C14: the randomness server under a history of punctures, natively
+// ---------------------------------------------------------------------------
+fn pk_tags(pk: &ppoprf::ppoprf::ServerPublicKey) -> Result<Vec<u8>, String> {
+    // bincode: base point (32) | u64 map length | (u8 tag | 32-byte point)*
+    let b = pk.serialize_to_bincode().map_err(|e| format!("{:?}", e))?;
+    if b.len() < 40 { return Err("public key encoding too short".into()); }
+    let n = u64::from_le_bytes([b[32], b[33], b[34], b[35], b[36], b[37], b[38], b[39]]) as usize;
+    if b.len() != 40 + 33 * n { return Err(format!("public key encoding has {} bytes for {} tags", b.len(), n)); }
+    Ok((0..n).map(|i| b[40 + 33 * i]).collect())
+}
+fn undecodable_point() -> ppoprf::ppoprf::Point {
+    // 32 bytes 0xff is not a canonical Ristretto encoding
+    serde_json::from_value(serde_json::json!(vec![0xffu8; 32])).expect("point from bytes")
+}
+fn same_answers(a: &ppoprf::ppoprf::Server, b: &ppoprf::ppoprf::Server, p: &ppoprf::ppoprf::Point, what: &str) -> Option<String> {
+    let (ka, kb) = (a.get_public_key().serialize_to_bincode().ok(), b.get_public_key().serialize_to_bincode().ok());
+    if ka != kb { return Some(format!("{}: public keys differ", what)); }
+    for md in 0..=255u8 {
+        let (ra, rb) = (a.eval(p, md, false), b.eval(p, md, false));
+        match (ra, rb) {
+            (Ok(x), Ok(y)) => if x.output != y.output { return Some(format!("{}: answers for tag {} differ", what, md)); },
+            (Err(x), Err(y)) => if format!("{:?}", x) != format!("{:?}", y) { return Some(format!("{}: tag {} fails with {:?} vs {:?}", what, md, x, y)); },
+            (x, y) => return Some(format!("{}: tag {} answered by one server only ({} vs {})", what, md, x.is_ok(), y.is_ok())),
+        }
+    }
+    None
+}
+
+pub fn server_history(case: &Value) -> Result<Option<String>, String> {
+    let list = |k: &str| -> Vec<u8> { case[k].as_array().map(|a| a.iter().map(|x| x.as_u64().unwrap_or(0) as u8).collect()).unwrap_or_default() };
+    let (reg, ps) = (list("registered"), list("punctures"));
+    let md = case["md"].as_u64().unwrap_or(0) as u8;
+    let decodable = case["decodable"].as_bool().unwrap_or(true);
+    let r = catch(move || -> Result<Option<String>, String> {
+        let mut srv = ppoprf::ppoprf::Server::new(reg.clone()).map_err(|e| format!("Server::new: {:?}", e))?;
+        let fresh = srv.clone();
+        let pk0 = srv.get_public_key().serialize_to_bincode().map_err(|e| format!("{:?}", e))?;
+        let mut tags = pk_tags(&srv.get_public_key())?;
+        tags.sort();
+        let mut want = reg.clone();
+        want.sort();
+        want.dedup();
+        if tags != want { return Ok(Some(format!("the public key registers {:?}, created with {:?}", tags, want))); }
+        let good = ppoprf::ppoprf::Client::blind(b"input").0;
+        let p = if decodable { good.clone() } else { undecodable_point() };
+        let kind = |e: &ppoprf::PPRFError| format!("{:?}", e).split(|c: char| !c.is_alphanumeric()).next().unwrap_or("").to_string();
+        // untouched server
+        let r0 = srv.eval(&p, md, false);
+        if r0.is_ok() != (decodable && want.contains(&md)) {
+            return Ok(Some(format!("an untouched server created with {:?} {} for tag {} (point decodable: {})", want, if r0.is_ok() { "answers" } else { "refuses" }, md, decodable)));
+        }
+        // the history
+        let mut done: Vec<u8> = Vec::new();
+        for &t in &ps {
+            let r = srv.puncture(t);
+            if r.is_ok() == done.contains(&t) {
+                return Ok(Some(format!("puncture({}) returned ok={} although the tag was {} punctured before", t, r.is_ok(), if done.contains(&t) { "already" } else { "not" })));
+            }
+            if !done.contains(&t) { done.push(t); }
+            if srv.get_public_key().serialize_to_bincode().map_err(|e| format!("{:?}", e))? != pk0 { return Ok(Some(format!("the public key changed when tag {} was punctured", t))); }
+        }
+        // every tag: answers iff decodable, registered, unpunctured; same answer as the untouched server
+        for t in 0..=255u8 {
+            let r = srv.eval(&p, t, false);
+            let should = decodable && want.contains(&t) && !done.contains(&t);
+            if r.is_ok() != should {
+                return Ok(Some(format!("after puncturing {:?} the server (registered {:?}) {} for tag {} (point decodable: {})", done, want, if r.is_ok() { "answers" } else { "refuses" }, t, decodable)));
+            }
+            match (&r, fresh.eval(&p, t, false)) {
+                (Ok(a), Ok(b)) => if a.output != b.output { return Ok(Some(format!("the answer for tag {} changed after puncturing {:?}", t, done))); },
+                (Err(e), _) => {
+                    let k = kind(e);
+                    let wantk = if !decodable { "BadPointEncoding" } else if !want.contains(&t) { "BadTag" } else { "NoPrefixFound" };
+                    if k != wantk { return Ok(Some(format!("tag {} fails with {} instead of {}", t, k, wantk))); }
+                }
+                _ => {}
+            }
+        }
+        if !decodable { return Ok(None); }
+        // clones evolve independently
+        let mut c = srv.clone();
+        let extra = (0..=255u8).find(|t| !done.contains(t)).unwrap_or(0);
+        let _ = c.puncture(extra);
+        if srv.eval(&good, extra, false).is_ok() != want.contains(&extra) { return Ok(Some("puncturing a clone changed the original".into())); }
+        // export -> import into another server / into a stale replica
+        let state = serde_json::to_string(&srv.get_private_key()).map_err(|e| e.to_string())?;
+        let mut other = ppoprf::ppoprf::Server::new(vec![7u8]).map_err(|e| format!("{:?}", e))?;
+        other.set_private_key(serde_json::from_str(&state).map_err(|e| e.to_string())?);
+        if let Some(m) = same_answers(&srv, &other, &good, "a server restored from the exported state vs the exporter") { return Ok(Some(m)); }
+        let mut stale = fresh.clone();
+        stale.set_private_key(serde_json::from_str(&state).map_err(|e| e.to_string())?);
+        if let Some(m) = same_answers(&srv, &stale, &good, "a previously synchronised replica after importing the newer state vs the exporter") { return Ok(Some(m)); }
+        // the restored server keeps working: puncture one more live tag on both
+        if let Some(t) = want.iter().find(|t| !done.contains(t)) {
+            let (a, b) = (srv.puncture(*t), other.puncture(*t));
+            if a.is_ok() != b.is_ok() { return Ok(Some(format!("puncture({}) after import: exporter ok={}, restored ok={}", t, a.is_ok(), b.is_ok()))); }
+            if let Some(m) = same_answers(&srv, &other, &good, "exporter vs restored server after one more puncture on both") { return Ok(Some(m)); }
+        }
+        Ok(None)
+    });
+    match r { Err(p) => Ok(Some(format!("panicked: {}", p))), Ok(x) => x }
+}
+
+/// C10 / C11 concrete sweep: every (puncture, probe) pair of the 8-bit domain, then seeded
+/// histories of 2..6 punctures (sibling-first, ascending, repeated) with 16 probes each
+pub fn ggm_sweep(case: &Value) -> Result<Option<String>, String> {
+    let mut seed = case["seed"].as_u64().unwrap_or(1);
+    let r = catch(move || -> Result<Option<String>, String> {
+        let g0 = ppoprf::ggm::GGM::setup();
+        let mut base = vec![[0u8; 32]; 256];
+        for y in 0..256usize {
+            g0.eval(&[y as u8], &mut base[y]).map_err(|e| format!("fresh eval {}: {}", y, e))?;
+        }
+        for a in 0..256usize { for b in 0..a { if base[a] == base[b] { return Ok(Some(format!("inputs {} and {} have the same value", a, b))); } } }
+        let check = |g: &ppoprf::ggm::GGM, done: &Vec<u8>, ys: &[u8]| -> Option<String> {
+            let mut out = [0u8; 32];
+            for &y in ys {
+                let r = g.eval(&[y], &mut out);
+                if done.contains(&y) { if r.is_ok() { return Some(format!("punctured input {} still evaluates after {:?}", y, done)); } }
+                else if r.is_err() { return Some(format!("unpunctured input {} no longer evaluates after {:?}", y, done)); }
+                else if out != base[y as usize] { return Some(format!("input {} changed its value after {:?}", y, done)); }
+            }
+            None
+        };
+        let all: Vec<u8> = (0..=255u8).collect();
+        // wrong lengths are refused by both calls and leave the key as it was
+        {
+            let mut g = g0.clone();
+            let mut out = [0u8; 32];
+            for bad in [&[][..], &[1u8, 2][..], &[0u8, 0, 0][..]] {
+                if g.eval(bad, &mut out).is_ok() { return Ok(Some(format!("evaluation accepts a {}-byte input", bad.len()))); }
+                if g.puncture(bad).is_ok() { return Ok(Some(format!("puncturing accepts a {}-byte input", bad.len()))); }
+            }
+            if let Some(m) = check(&g, &vec![], &all) { return Ok(Some(format!("after refused wrong-length calls: {}", m))); }
+            g.puncture(&[9]).map_err(|e| e.to_string())?;
+            for bad in [&[][..], &[9u8, 9][..]] {
+                if g.eval(bad, &mut out).is_ok() || g.puncture(bad).is_ok() { return Ok(Some(format!("a {}-byte input is accepted after a puncture", bad.len()))); }
+            }
+            if let Some(m) = check(&g, &vec![9], &all) { return Ok(Some(format!("after refused wrong-length calls: {}", m))); }
+        }
+        for p in 0..=255u8 {
+            let mut g = g0.clone();
+            if g.puncture(&[p]).is_err() { return Ok(Some(format!("puncture({}) on a fresh key fails", p))); }
+            if g.puncture(&[p]).is_ok() { return Ok(Some(format!("puncture({}) succeeds twice", p))); }
+            if let Some(m) = check(&g, &vec![p], &all) { return Ok(Some(m)); }
+        }
+        for _ in 0..400 {
+            let n = 2 + (lcg(&mut seed) % 5) as usize;
+            let first = lcg(&mut seed) as u8;
+            let mut hist: Vec<u8> = vec![first];
+            for i in 1..n {
+                let prev = hist[i - 1];
+                hist.push(match lcg(&mut seed) % 4 { 0 => prev ^ 0x80, 1 => prev ^ 1, 2 => prev.wrapping_add(1), _ => lcg(&mut seed) as u8 });
+            }
+            let mut g = g0.clone();
+            let mut done: Vec<u8> = Vec::new();
+            for &p in &hist {
+                let r = g.puncture(&[p]);
+                if r.is_ok() == done.contains(&p) { return Ok(Some(format!("history {:?}: puncture({}) ok={} ", hist, p, r.is_ok()))); }
+                if !done.contains(&p) { done.push(p); }
+            }
+            let mut ys: Vec<u8> = hist.clone();
+            for &p in &hist { ys.push(p ^ 0x80); ys.push(p ^ 1); }
+            for _ in 0..8 { ys.push(lcg(&mut seed) as u8); }
+            if let Some(m) = check(&g, &done, &ys) { return Ok(Some(format!("history {:?}: {}", hist, m))); }
+        }
+        Ok(None)
+    });
+    match r { Err(p) => Ok(Some(format!("panicked: {}", p))), Ok(x) => x }
+}
+
+
+/// C05 / C02: collections mixing shares of two different sharings (same threshold): whatever
+/// the order, the outcome is an error or exactly the message of the sharing the *first* share
+/// belongs to; and it is an error whenever no sharing reaches the threshold.
+pub fn adss_mixed(case: &Value) -> Result<Option<String>, String> {
+    let (ma, ra, mb, rb) = (get_hex(case, "ma"), get_hex(case, "ra"), get_hex(case, "mb"), get_hex(case, "rb"));
+    let t = u32_of(case, "t").max(1);
+    let rounds = case["rounds"].as_u64().unwrap_or(6) as usize;
+    let r = catch(move || -> Result<Option<String>, String> {
+        for _ in 0..rounds {
+            // fresh points every round (the OS draws them): all relative orders of points occur
+            let mk = |m: &Vec<u8>, r: &Vec<u8>| adss::Commune::new(t, m.clone(), r.clone(), None).share().map_err(|e| e.to_string());
+            let a: Vec<adss::Share> = (0..t as usize + 1).map(|_| mk(&ma, &ra)).collect::<Result<_, _>>()?;
+            let b: Vec<adss::Share> = (0..t as usize + 1).map(|_| mk(&mb, &rb)).collect::<Result<_, _>>()?;
+            // (who is first, how many of A, how many of B)
+            for first_is_b in [true, false] {
+                for na in 0..=t as usize + 1 {
+                    for nb in 0..=t as usize + 1 {
+                        let (fst, oth, nf, no, mf) = if first_is_b { (&b, &a, nb, na, &mb) } else { (&a, &b, na, nb, &ma) };
+                        if nf == 0 { continue; }
+                        let mut v: Vec<adss::Share> = vec![fst[0].clone()];
+                        v.extend(oth[..no].iter().cloned());
+                        v.extend(fst[1..nf].iter().cloned());
+                        match adss::recover(&v) {
+                            Err(_) => {
+                                // the first share's sharing is complete and its shares come first among the distinct ones?
+                                // (only the all-own-shares case must succeed)
+                                if no == 0 && nf >= t as usize { return Ok(Some(format!("{} honest shares of one threshold-{} sharing are refused", nf, t))); }
+                            }
+                            Ok(c) => {
+                                if &c.get_message() != mf && ma != mb {
+                                    return Ok(Some(format!("a collection whose first share belongs to sharing {} ({} own, {} foreign shares) recovers the other sharing's message", if first_is_b { "B" } else { "A" }, nf, no)));
+                                }
+                                if nf < t as usize && ma != mb {
+                                    return Ok(Some(format!("recovery succeeds although the first share's sharing has only {} of {} shares present", nf, t)));
+                                }
+                            }
+                        }
+                    }
+                }
+            }
+        }
+        Ok(None)
+    });
+    match r { Err(p) => Ok(Some(format!("panicked: {}", p))), Ok(x) => x }
 }
